@@ -344,6 +344,43 @@ func init() {
 			if calls > stop+1 {
 				return "preorder-yields-after-stop", "", false
 			}
+			// an iterator VALUE is reusable: ranging over the same iter.Seq again after an early stop visits everything again
+			seq := ast.Preorder(root)
+			count := func() int {
+				k := 0
+				for range seq {
+					k++
+				}
+				return k
+			}
+			n1 := count()
+			for range seq {
+				break
+			}
+			k2 := 0
+			for range seq {
+				k2++
+				if k2 > stop {
+					break
+				}
+			}
+			if n3 := count(); n1 != total || n3 != total {
+				return "preorder-seq-not-reusable", fmt.Sprintf("full=%d after early stops=%d want %d", n1, n3, total), false
+			}
+		}
+		if e.list && len(roots) > 0 {
+			seqm := ast.PreorderMany(roots)
+			tot := len(allNodes(roots))
+			for range seqm {
+				break
+			}
+			k := 0
+			for range seqm {
+				k++
+			}
+			if k != tot {
+				return "preordermany-seq-not-reusable", fmt.Sprintf("after an early stop %d want %d", k, tot), false
+			}
 		}
 		// WalkMany over the list
 		if e.list {
